@@ -5,7 +5,7 @@ V = os.path.dirname(os.path.dirname(os.path.abspath(__file__)))
 CLAIMED = {
  'C02': ("Shuffle structure: the stack-secret importer refuses non-bijective index vectors on every path (guard domination), every mix/glue routine applies exactly the recorded permutation with the secret stored at the same index (index-role agreement over symbolic terms), and the permutation constructors only swap / rotate. Necessary structural conditions; type preservation by re-masking is algebra and not decided.", "§3 C02",
          "must-fact dataflow + symbolic index-term agreement across the six mixing siblings"),
- 'C03': ("Completeness, necessary conditions only: no accepting path contradicts the precondition of a fixed-base power (table/base typestate), prover and verifier of each pair exchange the same number and order of values and hash the same argument lists. Does not decide the algebra.", "§3 C03",
+ 'C03': ("Completeness, necessary conditions only: at every fixed-base power the base is the member its table was built from or is guarded equal to it (a guard establishing inequality is a contradiction: every honest run fails), the prover's I/O shape is the exact dual of the verifier's for all 39 pairs, and both sides hash the same function/count/argument roles. Does not decide the algebra.", "§3 C03",
          "typestate of fixed-base tables + contradiction rule; prover/verifier I/O-shape duality and Fiat-Shamir argument agreement"),
  'C04': ("Static check inventory over every offered verifier: accepting exits are guarded by each membership/range test, final equation (abstracted to the inputs it relates), sub-verifier verdict and per-round cut-and-choose check of a frozen reviewed inventory, under every value of the bool parameters; comparison operators cover all members; no verdict is dropped. Does not decide the 2^-kappa bound.", "§3 C04",
          "guard domination by must-fact dataflow against a frozen check inventory; sibling agreement; unused-verdict rule on resolved callees"),
